@@ -11,8 +11,9 @@ from ..seqengine import World
 
 ID = "C01"
 LEVEL = "exploration"
-RULE = ("episode = store_object(pid, content) through one of 5 data kinds (str path, Path, open rb file, "
-        "io.BytesIO, BufferedReader(BytesIO); streams at offset 0/1/mid/end) in a store with one of the 5 "
+RULE = ("episode = store_object(pid, content) through one of 8 data kinds (str path, Path, open rb file, "
+        "io.BytesIO, BufferedReader(BytesIO), gzip.open stream - its .name holds OTHER bytes -, os.fdopen stream - its "
+        ".name is a descriptor number -, a file stream whose path was replaced on disk after opening; streams at offset 0/1/mid/end) in a store with one of the 5 "
         "algorithms x 3 shard shapes, sizes on and around multiples of 4096 / 8192 / 65536, 1 MiB and 4-9 MiB objects, an "
         "eighth of the episodes with the store reached through a symbolic link, followed by a random "
         "history of calls on other pids (same/different content, deletes of sharers, metadata, rejected "
@@ -24,7 +25,8 @@ ASSUMPTIONS = ["hashlib digests are the ground truth", "tmpfs scratch directory 
 
 RELEVANT = {"value:cid", "value:size", "value:bytes", "stream:closed", "stream:offset",
             "state:retrievable", "state:retrieve-bytes"}
-KINDS = ["path", "Path", "file", "bytesio", "bufreader"]
+KINDS = ["path", "Path", "file", "bytesio", "bufreader", "gzip", "fdopen", "replaced"]
+STREAM_KINDS = ("file", "bytesio", "bufreader", "gzip", "fdopen", "replaced")
 SHAPES = [(3, 2), (1, 1), (2, 4)]
 
 
@@ -44,7 +46,7 @@ def episode(rng, scratch, res, idx, force=None):
     sizes = boundary_sizes(rng)
     size = rng.choice(sizes)
     kind = rng.choice(KINDS)
-    offset = rng.choice(["0", "1", "mid", "end"]) if kind in ("file", "bytesio", "bufreader") else None
+    offset = rng.choice(["0", "1", "mid", "end"]) if kind in STREAM_KINDS else None
     if force:
         algo, depth, width, size, kind, offset = force
     spec = {"main": {"cseed": rng.getrandbits(32), "size": size},
@@ -88,7 +90,7 @@ def episode(rng, scratch, res, idx, force=None):
             trace.append([op_shape(op), out.brief()])
             if op["op"] == "retrieve" and out.ok:
                 res.count("retrieves_checked")
-            if op["op"] == "store" and op.get("kind") in ("file", "bytesio", "bufreader"):
+            if op["op"] == "store" and op.get("kind") in STREAM_KINDS:
                 res.count("streams_checked")
             for f in findings:
                 # the store of the pid under observation must itself succeed (accepted data kinds)
@@ -133,7 +135,7 @@ def run_shard(sub_seed, n, shard_idx):
         sweep = []
         if shard_idx == 0:
             for kind in KINDS:
-                for off in (["0", "1", "mid", "end"] if kind in ("file", "bytesio", "bufreader") else [None]):
+                for off in (["0", "1", "mid", "end"] if kind in STREAM_KINDS else [None]):
                     for algo in STORE_ALGOS:
                         sweep.append((algo, 3, 2, 8193, kind, off))
         if shard_idx == 2:
@@ -143,7 +145,7 @@ def run_shard(sub_seed, n, shard_idx):
         if shard_idx == 1:
             for size in boundary_sizes(random.Random(0)):
                 for kind in KINDS:
-                    sweep.append(("SHA-256", 3, 2, size, kind, "mid" if kind in ("file", "bytesio", "bufreader") else None))
+                    sweep.append(("SHA-256", 3, 2, size, kind, "mid" if kind in STREAM_KINDS else None))
         for i, f in enumerate(sweep):
             episode(rng, scratch, res, f"s{i}", force=f)
         for i in range(n):
